@@ -279,6 +279,22 @@ Definition flush (guard : bool) (c : cfg) (o : oracle) (s : db) : res db :=
   Val {| tabs := l3; next_wal := hi; earliest := hi; wal_size := 0; d_cursor := Some hi;
          d_wal := w; acked := acked s |}.
 
+(* Why the range is recorded in the same critical section as the freeze.  [flush_stale] is the flush
+   with the end [hi] of the recorded range given from outside - what wal_flush would do if it read
+   storage.unflushed_wal_ids() before taking the ingestion lock and another ingestion got in
+   between: the buffers it freezes hold the rows of segments at or above [hi], which stay in the
+   log above the new cursor.  With hi = next_wal s it is [flush] (Props/C08.v:
+   C08_flush_is_flush_at_next_wal), with a stale hi a restart serves rows twice
+   (C08_stale_range_duplicates). *)
+Definition flush_stale (guard : bool) (c : cfg) (o : oracle) (s : db) (hi : N) : res db :=
+  let lo := earliest s in
+  do l1 <- flush_mid guard c o s;
+  do l2 <- map_tabs SNoTable (fun t => Some (publish_meta t)) l1;
+  do l3 <- delete_orphans l2;
+  do w <- of_opt SDeleteMissing (delete_segments (N.to_nat (hi - lo)) lo (d_wal s));
+  Val {| tabs := l3; next_wal := next_wal s; earliest := hi; wal_size := 0; d_cursor := Some hi;
+         d_wal := w; acked := acked s |}.
+
 (* ---------------------------------------------------------------------------------------------- *)
 (* restart: drop(LocustDB) after quiescence, then InnerLocustDB::new on the same directory *)
 
